@@ -12,6 +12,11 @@ func init() {
 		if err := c06.Run(r); err != nil {
 			return err
 		}
+		if len(r.Failures) >= 8 {
+			// the session core itself is broken (failing inputs recorded): the helper scenarios of
+			// C15 / C18 would only add watchdogs
+			return nil
+		}
 		if r.Replay == "" && !r.Race() {
 			// the extension helpers that block on a correlated reply
 			c15.RunWaits(r)
